@@ -84,7 +84,51 @@ struct Kernel
     void (*budget_fail)(const char*, const std::string&) = nullptr;
 };
 
+// ---- fine flavour: location -> last accessing thread (precise, never
+// evicting; keyed by 8-byte granule).  Nothing that consumes the PRNG depends
+// on the addresses themselves.
+struct AccessTable
+{
+    std::vector<uint64_t> keys; // granule+1, 0 = empty
+    std::vector<int32_t> val;   // tid*2 + was_write
+    size_t used = 0;
+    void clear()
+    {
+        keys.assign(1 << 14, 0);
+        val.assign(1 << 14, 0);
+        used = 0;
+    }
+    void grow()
+    {
+        std::vector<uint64_t> ok;
+        std::vector<int32_t> ov;
+        ok.swap(keys);
+        ov.swap(val);
+        keys.assign(ok.size() * 2, 0);
+        val.assign(ok.size() * 2, 0);
+        used = 0;
+        for (size_t i = 0; i < ok.size(); ++i)
+            if (ok[i])
+                *slot(ok[i] - 1) = ov[i];
+    }
+    int32_t* slot(uint64_t g)
+    {
+        size_t mask = keys.size() - 1;
+        size_t i = (size_t)((g * 0x9E3779B97F4A7C15ull) >> 20) & mask;
+        while (keys[i] && keys[i] != g + 1)
+            i = (i + 1) & mask;
+        if (!keys[i]) {
+            keys[i] = g + 1;
+            val[i] = -1;
+            ++used;
+        }
+        return &val[i];
+    }
+};
+
 static Kernel K;
+static AccessTable AT;
+static bool g_access_yield = false;
 static thread_local Thread* tl_self = nullptr;
 
 static const size_t LOGRING = 120;
@@ -658,6 +702,11 @@ reschedule(bool exiting)
     if (K.cfg.replay) {
         if (have_forced && forced->state == T_RUNNABLE)
             next = forced;
+    } else if (n > 1 && g_access_yield && dflt == me &&
+               !K.rng.chance(K.cfg.p_access)) {
+        // a cross-thread memory access: a preemption point only with
+        // probability p_access (there are very many of them)
+        next = me;
     } else if (n > 1) {
         switch (K.cfg.strategy) {
             case ST_RW:
@@ -729,6 +778,31 @@ yield_point(const char* what)
     if (!K.active || K.finishing)
         return;
     reschedule(false);
+}
+
+void
+on_access(const void* addr, unsigned size, bool is_write)
+{
+    (void)size;
+    Thread* me = tl_self;
+    if (!K.active || K.finishing || !me || K.cfg.p_access <= 0)
+        return;
+    if (AT.keys.empty())
+        AT.clear();
+    if (AT.used * 2 > AT.keys.size())
+        AT.grow();
+    int32_t* v = AT.slot((uint64_t)(uintptr_t)addr >> 3);
+    int32_t prev = *v;
+    *v = me->id * 2 + (is_write ? 1 : 0);
+    if (prev < 0 || prev / 2 == me->id)
+        return;
+    if (!is_write && !(prev & 1))
+        return; // read after another thread's read: no communication
+    // communication between two threads through plain memory
+    probe("k.cross_thread_accesses");
+    g_access_yield = true;
+    reschedule(false);
+    g_access_yield = false;
 }
 
 void
@@ -922,6 +996,8 @@ begin_run(const SchedConfig& cfg)
     K.pct_change_points.clear();
     K.pct_low = -1;
     K.finishing = false;
+    if (cfg.p_access > 0)
+        AT.clear();
     if (cfg.strategy == ST_PCT && !cfg.replay) {
         for (int i = 0; i < cfg.pct_depth; ++i)
             K.pct_change_points.push_back(
